@@ -184,6 +184,8 @@ class World:
         child.at_exit.append(self._on_worker_death)
 
     def on_sig_deliver(self, proc, signum, label):
+        if proc.pid in self.workers and signum in TERMSIGS:
+            self.workers[proc.pid].setdefault('term_delivered_at', self.k.now)
         if proc.pid in self.workers and (signum in TERMSIGS or signum == 10) and label.startswith('write') and \
                 self.wire_out.get(proc.pid):
             # unwound in the middle of writing a message to the result pipe
@@ -361,7 +363,7 @@ class World:
                     k.probe('job_cancelled')
                     k.record('user-cancel', op[1])
             elif name == 'terminate_job':
-                self.do_terminate_job(op[1])
+                self.do_terminate_job(op[1], op[2] if len(op) > 2 else None)
             elif name == 'dup':
                 self.do_dup(op[1], op[2])
             elif name == 'at':
@@ -435,8 +437,12 @@ class World:
             k.probe('send_failure')
         rec.submitted = (k.steps, k.now)
         rec.after_close = bool(opts.get('after_close'))
+        fn, fargs = T.run_task, (uid, prog)
+        if opts.get('builtin'):
+            # the task callable itself is a C function that raises: the traceback has a single entry
+            fn, fargs = T.BUILTINS[opts['builtin']]
         h = self.pool.apply_async(
-            T.run_task, (uid, prog), kwds,
+            fn, fargs, kwds,
             callback=self._cb(rec, 'ok'), error_callback=self._cb(rec, 'err'),
             accept_callback=self._cb(rec, 'acc'), timeout_callback=self._cb(rec, 'to'),
             soft_timeout=opts.get('soft_timeout'), timeout=opts.get('timeout'),
@@ -456,6 +462,7 @@ class World:
         rec = JobRec(uid, kind)
         rec.items = items
         rec.chunksize = chunksize
+        rec.after_close = self.closed_at is not None      # offered to a pool that has been closed
         self.jobs[uid] = rec
         for it in items:
             self.item_owner[it[0]] = uid
@@ -613,15 +620,20 @@ class World:
         self.term_calls.append({'t0': t0, 't1': (k.steps, k.now), 'snap': self.snapshot(), 'before': before,
                                 'how': how, 'busy': busy})
 
-    def do_terminate_job(self, uid):
+    def do_terminate_job(self, uid, sig=None):
         rec = self.jobs.get(uid)
         if rec is None or rec.res is None:
             return
         pid = getattr(rec.res, '_worker_pid', None)
         if isinstance(pid, int):
             self.k.record('user-terminate-job', uid, pid)
-            rec.opts['terminate_job_pid'] = pid
-            self.pool.terminate_job(pid)
+            if sig is None:
+                rec.opts['terminate_job_pid'] = pid
+                self.pool.terminate_job(pid)
+            else:
+                # a "soft revoke": terminate_job() with a signal the task may survive
+                self.k.fault_fired('soft_revoke_signal_%d' % sig)
+                self.pool.terminate_job(pid, sig)
 
     def wait_accepted(self, uid, timeout):
         k = self.k
